@@ -231,7 +231,12 @@ def finishSubmit (s : S) (tid q : Nat) (ty : Option Bool) (t : Nat) (th : Th) (a
       | some _, true, false => "submit-forkfail"
       | some true, true, true => "submit-r"
       | some false, true, true => "submit-w"
-    ({ setTh s tid {} with cov := bump s.cov key }, m0 ++ m1 ++ m2)
+    let s := { setTh s tid {} with cov := bump s.cov key }
+    -- status changes of the new child that happened before fork() had even returned to the parent (seen inside the submit window, when the
+    -- model did not know the pid yet) are applied now
+    let (s, m3) := (th.later.toList.zip th.laterPid.toList).foldl
+      (fun (acc : S × List String) (p : Nat × Nat) => let (s', m) := procEvent acc.1 p.2 p.1; (s', acc.2 ++ m)) (s, [])
+    (s, m0 ++ m1 ++ m2 ++ m3)
 
 def handle (s : S) (ws : List String) : S × List String :=
   let s := { s with line := s.line + 1 }
@@ -270,6 +275,10 @@ def handle (s : S) (ws : List String) : S × List String :=
       (setTh s tid { th with sub := { th.sub with exec := th.sub.inChild && more.contains "in-child" } }, [])
     | .submit .., "CHILD-WIRING" :: tab => (setTh s tid { th with sub := { th.sub with childTab := some (parseTab tab) } }, [])
     | .submit .., ["CHILD-END"] => (setTh s tid { th with sub := { th.sub with inChild := false } }, [])
+    | .submit .., "CHILD" :: more =>
+      match kvNat "pid" more, (kv "status" more).bind parseHex with
+      | some pid, some st => (setTh s tid { th with later := th.later.push st, laterPid := th.laterPid.push pid }, [])
+      | _, _ => (s, [s!"bad-log line {s.line}"])
     | .submit .., ["PFREE", _] => (setTh s tid { th with outs := th.outs.push .free }, [])
     | .submit .., "RET" :: more =>
       match kvInt "fd" more, kv "end" more with
